@@ -29,6 +29,7 @@ class Recorder:
         self.fault_at = None          # index of the I/O call to fail (0-based over counted calls)
         self.fault_after = False      # let the call take effect first (flush / fsync / close)
         self.fault_errno = errno.ENOSPC
+        self.kill_at = None           # index of the I/O call after whose effect the process really dies (os._exit)
         self.ncalls = 0
         self.temp_paths = []
         self.handles = {}             # id(proxy) -> role
@@ -67,8 +68,12 @@ class Recorder:
         try:
             res = fn()
         except BaseException as e:
+            if counted and self.kill_at is not None and idx == self.kill_at:
+                _os._exit(9)          # (the call ended by raising, e.g. StopIteration at end of file)
             self.events.append({"call": name, "f": role, "raised": type(e).__name__, "bytes": self.db_bytes(), "info": info or {}})
             raise
+        if counted and self.kill_at is not None and idx == self.kill_at:
+            _os._exit(9)              # process death right after this I/O call took effect: no flush, no cleanup
         ev = {"call": name, "f": role, "bytes": self.db_bytes(), "info": info or {}, "counted": counted}
         self.events.append(ev)
         if inject and self.fault_after:
